@@ -39,6 +39,7 @@ RULE = (
     ' Round 6: `new_loop` - after the first session the same gateway object runs a full session under a second event loop.'
     ' Round 7: fault `disconnect-hang` (the leaving task is cancelled while disconnect hangs).'
     ' Round 8: fault `connect-once` (retry on the same object after a failed connect).'
+    ' Round 9: `reader_task` (another task suspended in gateway.listen() at exit).'
 )
 ASSUMPTIONS = [
     "threads are replaced by an inline executor: outcomes are the same at file-operation granularity, thread races inside aiofiles are not explored",
